@@ -19,7 +19,7 @@ LEVEL = "exploration"
 CASE_TIMEOUT = 30
 RULE = (
     "formula F over leaves Ev0..Ev4 drawn recursively (and/or nodes with 2-3 children, depth<=3, 2-5 leaves, distinct leaves) "
-    "rendered fully parenthesised as `match F` / `await F` / `when F [or when G]` (await/when leaves are flows f_i := match Ev_i(), or actions X_iAction() finished by their ActionFinished event, or a mix); event sequence of <=10 events drawn from the "
+    "rendered fully parenthesised as `match F` (leaves = distinct event names, or one event name with distinct parameter values, or `$r_i.Finished()` of flows started earlier) / `await F` / `when F [or when G]` (await/when leaves are flows f_i := match Ev_i(), or actions X_iAction() finished by their ActionFinished event, or a mix); optionally the statement sits behind `match Go()` and 0-4 events arrive before it becomes active (they must not count; a flow finished early can never satisfy its leaf); event sequence of <=10 events drawn from the "
     "leaf events (with repetition) and 2 irrelevant events; plus enumeration of ALL permutations of the leaf events for every "
     "formula shape with <=4 leaves (x 3 forms). Non-trivial = formula uses both operators or has depth>=2; distinct by "
     "(form, formula, sequence)."
@@ -136,7 +136,7 @@ def formula(draw, max_leaves=5):
 
 @st.composite
 def _case(draw):
-    form = draw(st.sampled_from(["match", "await", "when", "when"]))
+    form = draw(st.sampled_from(["match", "matchp", "matchref", "await", "when", "when"]))
     f = draw(formula())
     n = len(leaves(f))
     g = None
@@ -152,7 +152,9 @@ def _case(draw):
     # actions), so action leaves are only used in and-only formulas, where all of them are started
     if form in ("await", "when") and g is None and ops(f) == {"and"}:
         leaf = draw(st.sampled_from(["flow", "action", "mixed"]))
-    return {"form": form, "f": f, "g": g, "seq": seq[:14], "leaf": leaf}
+    # events that arrive BEFORE the group statement becomes active (it sits behind `match Go()`): they must not count
+    pre = draw(st.lists(st.sampled_from(alphabet), max_size=4)) if draw(st.booleans()) else None
+    return {"form": form, "f": f, "g": g, "seq": seq[:14], "leaf": leaf, "pre": pre}
 
 
 def strategy(tier):
@@ -169,6 +171,11 @@ def enumerate_cases(tier):
             for form in ("match", "await", "when"):
                 for p in perms:
                     yield {"form": form, "f": f, "g": None, "seq": list(p)}
+            if n <= 3:
+                for form in ("matchp", "matchref"):
+                    for p in perms:
+                        yield {"form": form, "f": f, "g": None, "seq": list(p), "pre": None}
+                        yield {"form": form, "f": f, "g": None, "seq": list(p), "pre": [p[0]]}
             if n <= 3 and ops(f) == {"and"}:
                 for form in ("await", "when"):
                     for leaf in ("action", "mixed"):
@@ -186,13 +193,24 @@ def program(case):
     ev = lambda i: f"Ev{i}()"  # noqa: E731
     fl = lambda i: f"X{i}Action()" if _is_action_leaf(case, i) else f"f{i}"  # noqa: E731
     lines = []
-    if form != "match":
+    evp = lambda i: f"Ev(v={i})"  # noqa: E731
+    rf = lambda i: f"$r{i}.Finished()"  # noqa: E731
+    if form not in ("match", "matchp"):
         n = max(leaves(f) + (leaves(g) if g else [])) + 1
         for i in range(n):
             lines += [f"flow f{i}", f"  match Ev{i}()", ""]
     lines.append("flow main")
+    if form == "matchref":
+        for i in sorted(set(leaves(f))):
+            lines.append(f"  start f{i} as $r{i}")
+    if case.get("pre") is not None:
+        lines.append("  match Go()")
     if form == "match":
         lines += [f"  match {render(f, ev)}", "  send Done()"]
+    elif form == "matchp":
+        lines += [f"  match {render(f, evp)}", "  send Done()"]
+    elif form == "matchref":
+        lines += [f"  match {render(f, rf)}", "  send Done()"]
     elif form == "await":
         lines += [f"  await {render(f, fl)}", "  send Done()"]
     else:
@@ -222,13 +240,35 @@ def prop(case):
         t = e0["type"]
         if t.startswith("StartX") and t.endswith("Action"):
             uids[int(t[6:-6])] = e0["action_uid"]
+    def mk(e):
+        if form == "matchp":
+            return smh.ev("Ev", v=e)
+        return smh.ev(f"Ev{e}")
+
+    dead = set()  # matchref: flows that finished before the statement became active can never satisfy their leaf
+    if case.get("pre") is not None:
+        for e in case["pre"]:
+            out = smh.types(smh.feed(state, mk(e)))
+            if "Done" in out or "Done2" in out:
+                raise Violation(f"{form}-fired-before-active", f"{form} F={render(f, str)}: marker on pre-activation event Ev{e} of {case['pre']}")
+            if form == "matchref":
+                dead.add(e)
+        out = smh.types(smh.feed(state, smh.ev("Go")))
+        if "Done" in out or "Done2" in out:
+            raise Violation(f"{form}-fired-before-active", f"{form} F={render(f, str)} pre={case['pre']}: marker right at activation, events received before the statement became active were counted")
+        # actions of await/when groups are started at activation
+        for e0 in state.outgoing_events:
+            t = e0["type"]
+            if t.startswith("StartX") and t.endswith("Action"):
+                uids[int(t[6:-6])] = e0["action_uid"]
     for idx, e in enumerate(seq):
         if e < 90 and _is_action_leaf(case, e) and e not in seen and e in uids:
             event = smh.ev(f"X{e}ActionFinished", action_uid=uids[e], is_success=True)
         else:
-            event = smh.ev(f"Ev{e}")
+            event = mk(e)
         out = smh.types(smh.feed(state, event))
-        seen.add(e)
+        if e not in dead:
+            seen.add(e)
         markers = [t for t in out if t in ("Done", "Done2")]
         if exp_at is None:
             ok_f = evaluate(f, seen)
@@ -236,7 +276,7 @@ def prop(case):
             if ok_f or ok_g:
                 exp_at = idx
                 exp_markers = {"Done"} if ok_f and not ok_g else {"Done2"} if ok_g and not ok_f else {"Done", "Done2"}
-        desc = f"{form} F={render(f, str)}" + (f" G={render(g, str)}" if g else "") + f" seq={seq}"
+        desc = f"{form} F={render(f, str)}" + (f" G={render(g, str)}" if g else "") + (f" pre={case['pre']}" if case.get("pre") is not None else "") + f" seq={seq}"
         if markers:
             if done_at is not None:
                 raise Violation(f"{form}-fired-twice", f"{desc}: marker again at step {idx} (first at {done_at})")
@@ -253,6 +293,8 @@ def prop(case):
     labels = [form, "leaf-" + case.get("leaf", "flow"), f"depth{d}", "both-ops" if len(o) == 2 else "one-op", "completed" if exp_at is not None else "never-true"]
     if g:
         labels.append("two-cases")
+    if case.get("pre") is not None:
+        labels.append("gated" + ("+early-events" if case["pre"] else ""))
     if any(e >= 90 for e in seq):
         labels.append("irrelevant-events")
     if len(set(seq)) < len(seq):
